@@ -9,3 +9,4 @@ import AikenVerif.Props.C11
 import AikenVerif.Props.C12
 import AikenVerif.Props.C18
 import AikenVerif.Props.C17
+import AikenVerif.Props.C09
